@@ -271,7 +271,10 @@ func c06R2(c *Ctx) {
 }
 
 func c06R3(c *Ctx) {
-	r := c.R.Rule("R3", "K3 StopAndWait = Stop[ok] → WaitPipeline[ok] → WaitPersisted → return nil (both engines)", 8)
+	c06StopAndWait(c, c.R.Rule("R3", "K3 StopAndWait = Stop[ok] → WaitPipeline[ok] → WaitPersisted[completed] → return nil (both engines)", 8))
+}
+
+func c06StopAndWait(c *Ctx, r string) {
 	for _, rel := range []string{pLife, pLife2} {
 		fn := c.SSA(r, rel, "(*Service).StopAndWait")
 		if fn == nil {
@@ -325,6 +328,11 @@ func c06R3(c *Ctx) {
 		nilRets, _ := kit.NilReturns(fn)
 		gP := kit.NewGates()
 		for _, p := range pers {
+			// a bounded wait reports whether the barrier was reached: only its success edge counts
+			if ci, ok := p.(ssa.CallInstruction); ok && ci.Value() != nil && kit.ErrIndexOfCall(ci) >= 0 {
+				gP.AddEdges(kit.OKEdges(ci), "WaitPersisted completed")
+				continue
+			}
 			gP.AddInstr(p, "WaitPersisted")
 		}
 		if len(nilRets) == 0 {
